@@ -251,6 +251,11 @@ def build_world(script):
             self.table = table
             self.count = 0             # public metric: events handled (MetricBreakpoint target)
 
+        def start(self, start_time):
+            """Lets a scripted entity be listed under sources= / probes= of a (partitioned) simulation: a
+            'source' that schedules no tick of its own and is otherwise the same actor."""
+            return []
+
         def handle_event(self, event):
             t = int(event.event_type[1:])
             self.count += 1
